@@ -80,6 +80,12 @@ Theorem C11_empty_id_rejected : forall E s flush n rd tadd, step E s (Proc 0 flu
 Proof. exact empty_id_rejected. Qed.
 Print Assumptions C11_empty_id_rejected.
 
+(* the other exported methods of the Filter — Reopen, Type, Now — do nothing to the gate (a Broker.Reopen, e.g. on log rotation,
+   must not close open groups early) *)
+Theorem C11_other_methods_identity : forall E s, step E s Other = (s, RNil).
+Proof. exact other_methods_identity. Qed.
+Print Assumptions C11_other_methods_identity.
+
 (* composites emitted through the Broker are never themselves Gateable *)
 Theorem C11_broker_composites_not_gateable : forall E l id evs d,
   In (LOut d id evs) (log (arun E l)) -> d = DSent \/ d = DSendErr -> compose E evs <> CGateable.
